@@ -114,6 +114,10 @@ class Kit(object):
     # -- valid mutation -----------------------------------------------------------------
     def mutation(self, K, rng, slot=0):
         m = self.machine
+        if rng.random() < 0.15:
+            sh = self.shrink(K, rng, slot)
+            if sh is not None:
+                return sh
         if m == "M-CI":
             return gen_ci.valid_mutation(K, rng, slot)
         if m == "M-IM":
@@ -122,6 +126,8 @@ class Kit(object):
             return gen_ti.valid_mutation(K, rng, slot)
         if m == "M-DI":
             K2 = gen_ti.gen_discinfo(rng)
+            if rng.random() < 0.3:
+                return _sl({"op": "di_inplace", "clear": True, "append": sorted(subset(rng, [1, 2, 3, 5, 8], 1, 3))}, slot)
             f = pick(rng, ["timestamp", "description", "arch", "disc_numbers"])
             return _sl({"op": "di_set", "field": f, "value": K2[f]}, slot)
         if rng.random() < 0.5:
@@ -133,6 +139,24 @@ class Kit(object):
         if m == "M-MO":
             return _sl(gen_mf.module_add(rng, variants, arches, 0), slot)
         return _sl(gen_mf.extra_add(rng, variants, arches, 0), slot)
+
+    def shrink(self, K, rng, slot=0):
+        """a valid change that makes the serialised form SHORTER (a later dump over the same path must not leave a tail)"""
+        m = self.machine
+        if m == "M-CI":
+            return _sl({"op": "ci_set", "sec": "release", "field": "name", "value": "x"}, slot)
+        if m == "M-IM" and K["cells"]:
+            v, a, i = pick(rng, K["cells"])
+            return _sl({"op": "img_remove", "variant": v, "arch": a, "iid": i}, slot)
+        if m == "M-TI":
+            if K["images"] and rng.random() < 0.5:
+                return _sl({"op": "ti_image_del", "platform": pick(rng, sorted(K["images"]))}, slot)
+            return _sl({"op": "ti_set", "sec": "release", "field": "name", "value": "x"}, slot)
+        if m == "M-DI":
+            return _sl({"op": "di_set", "field": "description", "value": "x"}, slot)
+        if m in ("M-RP", "M-MO", "M-XF") and K["adds"]:
+            return _sl({"op": "mf_del_variant", "variant": pick(rng, K["adds"])["variant"]}, slot)
+        return None
 
     # -- poison table ------------------------------------------------------------------------
     def sites(self, K):
@@ -170,6 +194,22 @@ class Kit(object):
         p2 = self.path + ".bystander"
         final = [_sl({"op": "dump", "path": p2}, slot), _sl({"op": "restart", "path": p2, "via": pick(rng, ["path", "handle", "loads"]), "offset": rng.randint(0, 200)}, slot)]
         return build, final
+
+    def disturbance(self, K, rng, slot=0):
+        """ops that a round-trip history may contain between a dump and the next restart / dump"""
+        r = rng.random()
+        if r < 0.35:
+            # unsaved changes are thrown away: restart WITHOUT a dump in between (the file is unchanged)
+            return [self.mutation(K, rng, slot), _sl({"op": "restart", "path": self.path, "via": pick(rng, ["path", "handle", "loads"]), "offset": rng.randint(0, 300)}, slot)]
+        if r < 0.6:
+            # another writer clobbers the destination; the unchanged object is dumped over it again
+            return [_sl({"op": "fs_clobber", "path": self.path, "how": pick(rng, ["garbage", "empty", "json", "longer"])}, slot),
+                    self.dump_op(K, rng, slot), _sl({"op": "restart", "path": self.path, "via": "path"}, slot)]
+        if r < 0.8:
+            # the same file is read twice in a row (second reader must see the file, not the first reader's object)
+            return [_sl({"op": "restart", "path": self.path, "via": "path"}, slot), self.mutation(K, rng, slot),
+                    _sl({"op": "restart", "path": self.path, "via": pick(rng, ["path", "loads"])}, slot)]
+        return [_sl({"op": "dumps"}, slot), self.mutation(K, rng, slot), _sl({"op": "dumps"}, slot)]
 
     def cfg(self, rng):
         return {"simset": pick(rng, ["insertion", "shuffle", "reverse", "sorted"])}
